@@ -407,7 +407,16 @@ func (w *W) checkC07(t *gcore.Type, id string, c *dynamicpb.Message) {
 		var err error
 		in := append([]byte{}, v.b...)
 		if p := guard(func() { err = x.(unmarshaler).Unmarshal(in) }); p != "" || err != nil {
-			continue // C06/C08's business
+			// Rejected. If the SAME message without the unknown fields is accepted, it is the unknown field that made a
+			// well-formed input unreadable: the data of the newer schema does not pass through. Otherwise the rejection
+			// has another cause and is C06/C08's business.
+			y := t.New()
+			var cerr error
+			canon := canonical(c)
+			if cp := guard(func() { cerr = y.(unmarshaler).Unmarshal(append([]byte{}, canon...)) }); cp == "" && cerr == nil {
+				w.failV(t, "C07/message-rejected-because-of-an-unknown-field", id, cls, vid, fmt.Sprint(p, err), v.b)
+			}
+			continue
 		}
 		var out []byte
 		var sz int
